@@ -79,7 +79,7 @@ Init ==
    \E side \in (IF n = 0 THEN {"absent"} ELSE SideOpts) :
     /\ case = [Blank EXCEPT !.heap0 = MkHeap(levels, Leaf(leaf), side), !.root = Root(levels, Leaf(leaf))]
     /\ pc = "init" /\ heap = case.heap0 /\ cur = VNone /\ idx = 0 /\ val = VNone /\ stk = <<>> /\ nfac = 0
-    /\ log = <<>> /\ out = NoOut /\ queue = <<>> /\ exp = Expect(TRUE, "", FALSE, <<>>, VNone)
+    /\ log = <<>> /\ out = NoOut /\ queue = <<>> /\ memo = 0 /\ exp = Expect(TRUE, "", FALSE, <<>>, VNone)
 
 ForEachCase(Do(_)) ==
   \E steps \in PathsFor(case.heap0) : \E ig \in BOOLEAN : \E fl \in {NoFlags(case.heap0)} \cup OneFlag(case.heap0) :
